@@ -20,6 +20,11 @@ CHECKS = {
     technique="exhaustive grid enumeration with injected failures + property-based testing (Hypothesis-generated argument values on random grid cells); oracle: specification automaton over the event trace recorded by listeners at application / service / method level and protocol / transport observers",
     text="Exploration: the whole grid protocol family {xml, soap11, json, msgpack, yaml, HttpRpc GET} x transport {ServerBase pipeline, WsgiApplication, NullServer with and without ostr} x failure point {success, malformed bytes, 3 bad SOAP envelopes, unknown method, invalid argument, raising method_call listener, raising method_return_object listener, raising function, unserialisable return value (XML family)} x {Fault, non-Fault} x listener layout (application / service / inherited-from-base-service / method level, duplicates) x level of the raising listener is enumerated (2,799 cells x 3 argument sets), plus 16 x 600 Hypothesis examples of 8 cells each with generated arguments (quick; thorough 64 x 3000). Every case builds a fresh application; the automaton checks first/last/exactly-once of context_created/closed, function at most once and only after method_call, return_object iff returned, exception_object iff fault followed by the matching document and string events, registration order, duplicates once, inheritance. Bounds: single injected failure per call; synchronous NullServer proxy only; no order asserted between managers of different levels.",
     note="Trusted: the specification automaton in pbt/props/c14.py (written from the property text and the class docstrings); one shared ordered trace."),
+ "C11": dict(
+    design="DESIGN.md §3 C11",
+    technique="property-based testing (Hypothesis) over generated applications with adversarially similar method names x enumerated service orders x enumerated near-miss requests; oracle: reference routing table computed from the spec alone + per-function invocation counters + Client fault for unregistered names",
+    text="Exploration: generated applications (9 ways of naming the method: XmlDocument/Soap11/Soap12 root tag, Json/Yaml/MessagePack single key, msgpack-rpc field, HttpRpc URL path, HttpPattern; 2-6 services x 1-6 methods whose names are case/prefix/suffix/dotted variants of 1-2 stems, custom _operation_name/_in_message_name, bare and wrapped signatures, auxiliary services, deliberate clashes, same-named service classes) are built under every permutation of the service list (all permutations up to 3 services quick / 4 thorough, sampled above) and every registered name plus its near misses (case flips, one-char prefix/suffix added or removed, Response/Result suffix, one-char substitution, other namespace, unqualified, empty) is requested; ~430k requests quick, ~11M thorough. Exactly the reference function plus its auxiliaries must run once; unregistered names run nothing and get a Client fault; construction result and outcome must not depend on the order; clashes must be refused at construction. Bounds: pattern addresses pairwise non-overlapping; no host patterns; GET/DELETE/OPTIONS verbs only.",
+    note="Trusted: the reference routing table in pbt/props/c11.py (public name = _in_message_name or _operation_name or function key, read off decorator.py)."),
  "C10": dict(
     design="DESIGN.md §3 C10",
     technique="mutation-based fuzzing driven by Hypothesis over generated valid requests (exhaustive prefix truncation, byte edits, structure-aware mutants); oracle: nothing escapes, reply is normal or a Client-family fault, no user function ran on a fault",
